@@ -2,6 +2,7 @@ package c04
 
 import (
 	"fmt"
+	"net"
 	"time"
 
 	"github.com/uhppoted/uhppote-core/types"
@@ -69,6 +70,9 @@ func checkFault(c faultCase) *rp.Fail {
 	case "-1s":
 		cfg.TimeoutNs = -1000000000
 	}
+	if c.Fault == "ipv6-sender" {
+		cfg.BindNoIP = true // (a bind address with no IP: the request sockets are bound to <any>)
+	}
 	var port uint16
 	switch c.Path {
 	case 0, 1:
@@ -84,6 +88,16 @@ func checkFault(c faultCase) *rp.Fail {
 					return []farm.Action{{Data: b[:8]}, {Data: b[8:40]}, {Data: b[40:]}}
 				case "twice":
 					return []farm.Action{{Data: good(r.Data)}, {Data: good(r.Data)}}
+				case "ipv6-sender":
+					// the answer comes from an IPv6 socket of this host ([::1]) to the port the request came from: a client whose bind
+					// address names no IP has a socket that hears both address families
+					if c6, err := net.DialUDP("udp6", nil, &net.UDPAddr{IP: net.IPv6loopback, Port: int(r.From.Port())}); err == nil {
+						c6.Write(good(r.Data))
+						c6.Write(shaped(r.Data)[:c.Len%65])
+						c6.Close()
+						ev.Class("network-fault/answer-from-an-ipv6-socket", 1)
+					}
+					return nil
 				}
 				return []farm.Action{{Data: shaped(r.Data)}}
 			}))
@@ -174,7 +188,7 @@ func genFault(t *rapid.T) faultCase {
 	if c.Path == 2 {
 		c.Fault = rapid.SampledFrom([]string{"close", "close", "late-close", "reset", "half-close", "half-reset", "refused", "pieces", "twice", "empty", "short", "oversize", "huge", "silence"}).Draw(t, "fault")
 	} else {
-		c.Fault = rapid.SampledFrom([]string{"empty", "short", "oversize", "huge", "refused", "pieces", "twice", "silence"}).Draw(t, "fault")
+		c.Fault = rapid.SampledFrom([]string{"empty", "short", "oversize", "huge", "refused", "pieces", "twice", "silence", "ipv6-sender"}).Draw(t, "fault")
 		if c.Path == 0 && c.Fault == "refused" {
 			c.Fault = "empty"
 		}
